@@ -176,7 +176,10 @@ def gen(rng, tier):
                       'timp': imp2, 'target': target,
                       'evaluate': rng.random() < 0.5,
                       # some references carry a scope of their own
-                      'rscope': rng.choice(['', '', 'rs', 'rs/deep'])})
+                      'rscope': rng.choice(['', '', 'rs', 'rs/deep']),
+                      # the same value also names a method of the referenced
+                      # class: [@K0(), @K0.meth]
+                      'with_meth': target == 'K0' and rng.random() < 0.3})
       else:
         stmts.append({'k': 'bind', 'imp': imp, 'path': path,
                       'param': rng.choice(PARAMS[path]), 'val': uid[0]})
@@ -242,10 +245,14 @@ def file_text(f, files):
         lines.append('%s.%s = %d' % (spell(s['imp'], s['path']), s['param'],
                                      s['val']))
       else:
-        lines.append('%s.%s = @%s%s%s' % (
-            spell(s['imp'], 'consume'), s['param'],
+        ref_text = '@%s%s%s' % (
             (s['rscope'] + '/') if s.get('rscope') else '',
-            spell(s['timp'], s['target']), '()' if s['evaluate'] else ''))
+            spell(s['timp'], s['target']), '()' if s['evaluate'] else '')
+        if s.get('with_meth'):
+          ref_text = '[%s, @%s]' % (ref_text,
+                                    spell(s['timp'], s['target'] + '.meth'))
+        lines.append('%s.%s = %s' % (spell(s['imp'], 'consume'), s['param'],
+                                     ref_text))
   return '\n'.join(lines) + '\n'
 
 
@@ -359,7 +366,8 @@ def run(case):
     else:
       ckey = (s['imp']['module'], 'consume')
       refs[(ckey, s['param'])] = (s['timp']['module'], s['target'],
-                                  s['evaluate'], s.get('rscope', ''))
+                                  s['evaluate'], s.get('rscope', ''),
+                                  bool(s.get('with_meth')))
       spellings.setdefault((s['timp']['module'], s['target']), set()).add(
           spell(s['timp'], s['target']))
       if s['target'] in ('K0', 'K1'):
@@ -445,7 +453,8 @@ def run(case):
           '%s: %s.%s (spelled %s) received %r, bound values %r\n%s' %
           (label, module, path, sorted(spellings.get((module, path), ())),
            got, params, '\n---\n'.join(file_text(f, files) for f in files)))
-    for (ckey, param), (tm, target, ev, rscope) in sorted(refs.items()):
+    for (ckey, param), (tm, target, ev, rscope, with_meth) in sorted(
+        refs.items()):
       consume = lookup(mods, ckey[0], 'consume')
       received.clear()
       received_scope.clear()
@@ -457,6 +466,12 @@ def run(case):
                                              probes.scrub(str(e))[:300]))
         continue
       got = received.get(ckey, {}).get(param)
+      if with_meth:
+        if not (isinstance(got, list) and len(got) == 2 and callable(got[1])):
+          v('C19.reference_works', [label, 'class-and-method-in-one-value'],
+            '%s: [@%s, @%s.meth] delivered %r' % (label, target, target, got))
+          continue
+        got = got[0]
       tobj = lookup(mods, tm, target)
       want_params = expected.get((tm, target), {})
       if ev:
